@@ -35,9 +35,21 @@ def main():
         print("MACHINERY-FAILURE %s: %s" % (pid, e))
         rc = 2
     except Exception:
-        traceback.print_exc()
-        print("MACHINERY-FAILURE %s: unexpected exception in the harness" % pid)
-        rc = 2
+        tb = traceback.format_exc()
+        frames = traceback.extract_tb(sys.exc_info()[2])
+        repo = os.path.realpath(os.environ.get("VERIF_REPO", "/repo"))
+        inner = frames[-1].filename if frames else ""
+        in_impl = any(os.path.realpath(f.filename).startswith(os.path.join(repo, "menelaus")) for f in frames[-6:])
+        if in_impl:
+            # the code under test raised on a call the driver considers legal: that is a finding about the code, not about the machinery
+            ctx.violation("the implementation raised %s during a legal call sequence: %s" % (sys.exc_info()[0].__name__, str(sys.exc_info()[1])[:300]),
+                          {"stage": "driver", "traceback": tb[-3000:], "replay": None})
+            ctx.finish()
+            rc = 1
+        else:
+            print(tb)
+            print("MACHINERY-FAILURE %s: unexpected exception in the harness" % pid)
+            rc = 2
     finally:
         tlc.cleanup()
     print("%s %s tier=%s seed=%d: %s (traces=%d events=%d tlc_states=%d wall=%.0fs)" % (
